@@ -115,6 +115,10 @@ SkipWins ==
   AtSets => ((\E i \in 1..Len(calls) : ~calls[i].inclusive /\ FilterMatches(calls[i], s)) => ~IsMatch(calls, s))
 SkipOnlyRemoves ==
   AtSets => \A c \in Calls : (~c.inclusive /\ IsMatch(Append(calls, c), s)) => IsMatch(calls, s)
+\* expected to FAIL (Filters_v_positive_wins): "a matching positive filter
+\* selects whatever the skip filters say" is a different rule
+PositiveWins ==
+  AtSets => ((\E i \in 1..Len(calls) : calls[i].inclusive /\ FilterMatches(calls[i], s)) => IsMatch(calls, s))
 OrderIrrelevant ==
   (AtSets /\ Len(calls) >= 2) =>
      (IsMatch(calls, s) <=> IsMatch([i \in 1..Len(calls) |-> calls[Len(calls) + 1 - i]], s))
